@@ -14,15 +14,16 @@ EXTENDS Integers, Sequences, FiniteSets, TLC
 CONSTANTS T,          \* time horizon
           Timeouts,   \* timeout values the program may set: integers, and NoneT for "no timeout"
           MaxOps,     \* bound on program operations
+          OpsAllowed, \* which operations the program uses (model focus)
           Busy        \* duration of the unrelated request's handler
 NoneT == 0 - 99
 NoExpiry == 0 - 1
 
-VARIABLES now, E, st, inbox, replySent, otherSent, cbs, fired, prog, busyUntil, obs, nops, waitFrom
-vars == <<now, E, st, inbox, replySent, otherSent, cbs, fired, prog, busyUntil, obs, nops, waitFrom>>
+VARIABLES now, E, st, inbox, replySent, otherSent, quickSent, cbs, fired, prog, busyUntil, obs, nops, waitFrom
+vars == <<now, E, st, inbox, replySent, otherSent, quickSent, cbs, fired, prog, busyUntil, obs, nops, waitFrom>>
 
 Init == /\ now = 0 /\ E = NoExpiry /\ st = "pending" /\ inbox = <<>>
-        /\ replySent = FALSE /\ otherSent = FALSE
+        /\ replySent = FALSE /\ otherSent = FALSE /\ quickSent = FALSE
         /\ cbs = 0 /\ fired = <<>> /\ prog = "idle" /\ busyUntil = 0 /\ obs = <<>> /\ nops = 0 /\ waitFrom = 0
 
 Expired == E # NoExpiry /\ now >= E                 \* Timeout.expired(): finite and now >= tmax
@@ -40,83 +41,93 @@ Tick == /\ now < T
         /\ prog = "waiting" => (st = "pending" /\ ~Expired /\ inbox = <<>>)
         /\ prog = "busy" => busyUntil > now
         /\ now' = now + 1
-        /\ UNCHANGED <<E, st, inbox, replySent, otherSent, cbs, fired, prog, busyUntil, obs, nops, waitFrom>>
+        /\ UNCHANGED <<E, st, inbox, replySent, otherSent, quickSent, cbs, fired, prog, busyUntil, obs, nops, waitFrom>>
 
 ReplyArrives == /\ ~replySent /\ replySent' = TRUE
                 /\ inbox' = Append(inbox, "R")
-                /\ UNCHANGED <<now, E, st, otherSent, cbs, fired, prog, busyUntil, obs, nops, waitFrom>>
+                /\ UNCHANGED <<now, E, st, otherSent, quickSent, cbs, fired, prog, busyUntil, obs, nops, waitFrom>>
 
 OtherArrives == /\ ~otherSent /\ otherSent' = TRUE
                 /\ inbox' = Append(inbox, "X")
-                /\ UNCHANGED <<now, E, st, replySent, cbs, fired, prog, busyUntil, obs, nops, waitFrom>>
+                /\ UNCHANGED <<now, E, st, replySent, quickSent, cbs, fired, prog, busyUntil, obs, nops, waitFrom>>
+
+\* an unrelated request whose handler returns at once
+QuickArrives == /\ ~quickSent /\ quickSent' = TRUE
+                /\ inbox' = Append(inbox, "Y")
+                /\ UNCHANGED <<now, E, st, replySent, otherSent, cbs, fired, prog, busyUntil, obs, nops, waitFrom>>
 
 \* ---------------------------------------------------------------- program operations (only when it is idle)
 CanOp == prog = "idle" /\ nops < MaxOps
 Count == nops' = nops + 1
 
-SetExpiry(t) == /\ CanOp /\ Count
+SetExpiry(t) == /\ CanOp /\ Count /\ "set_expiry" \in OpsAllowed
                 /\ E' = IF t = NoneT \/ t < 0 THEN NoExpiry ELSE now + t
                 /\ Obs("set_expiry", t)
-                /\ UNCHANGED <<now, st, inbox, replySent, otherSent, cbs, fired, prog, busyUntil, waitFrom>>
+                /\ UNCHANGED <<now, st, inbox, replySent, otherSent, quickSent, cbs, fired, prog, busyUntil, waitFrom>>
 
-AddCallback == /\ CanOp /\ Count
+AddCallback == /\ CanOp /\ Count /\ "add_callback" \in OpsAllowed
                /\ cbs' = cbs + 1
                /\ fired' = IF st # "pending" THEN Append(fired, cbs + 1) ELSE fired     \* runs at once if already ready
                /\ Obs("add_callback", Len(fired'))
-               /\ UNCHANGED <<now, E, st, inbox, replySent, otherSent, prog, busyUntil, waitFrom>>
+               /\ UNCHANGED <<now, E, st, inbox, replySent, otherSent, quickSent, prog, busyUntil, waitFrom>>
 
-QExpired == /\ CanOp /\ Count
+QExpired == /\ CanOp /\ Count /\ "expired" \in OpsAllowed
             /\ Obs("expired", st = "pending" /\ Expired)
-            /\ UNCHANGED <<now, E, st, inbox, replySent, otherSent, cbs, fired, prog, busyUntil, waitFrom>>
+            /\ UNCHANGED <<now, E, st, inbox, replySent, otherSent, quickSent, cbs, fired, prog, busyUntil, waitFrom>>
 
 \* the ready query serves whatever has arrived (poll_all) unless the answer is already determined; an unrelated request
 \* makes it busy first (not modelled inside the query: the query is only issued when no unrelated request is queued)
-QReady == /\ CanOp /\ Count
+QReady == /\ CanOp /\ Count /\ "ready" \in OpsAllowed
           /\ \A i \in 1..Len(inbox) : inbox[i] # "X"
           /\ IF st # "pending" THEN /\ Obs("ready", TRUE) /\ UNCHANGED <<st, fired, inbox>>
              ELSE IF Expired THEN /\ Obs("ready", FALSE) /\ UNCHANGED <<st, fired, inbox>>
              ELSE IF inbox # <<>>
-                  THEN /\ st' = AfterDispatch.st /\ fired' = AfterDispatch.fired /\ inbox' = Tail(inbox)
-                       /\ Obs("ready", AfterDispatch.st # "pending")
+                  THEN /\ inbox' = Tail(inbox)
+                       /\ IF Head(inbox) = "R"
+                          THEN st' = AfterDispatch.st /\ fired' = AfterDispatch.fired /\ Obs("ready", AfterDispatch.st # "pending")
+                          ELSE UNCHANGED <<st, fired>> /\ Obs("ready", FALSE)
                   ELSE /\ Obs("ready", FALSE) /\ UNCHANGED <<st, fired, inbox>>
-          /\ UNCHANGED <<now, E, replySent, otherSent, cbs, prog, busyUntil, waitFrom>>
+          /\ UNCHANGED <<now, E, replySent, otherSent, quickSent, cbs, prog, busyUntil, waitFrom>>
 
 \* the program serves the connection for some other purpose (conn.poll()): one frame is processed if one has arrived;
 \* a reply that arrives after the expiry is thereby discarded
-PollOther == /\ CanOp /\ Count
+PollOther == /\ CanOp /\ Count /\ "poll" \in OpsAllowed
              /\ \A i \in 1..Len(inbox) : inbox[i] # "X"
              /\ IF inbox # <<>>
-                THEN /\ st' = AfterDispatch.st /\ fired' = AfterDispatch.fired /\ inbox' = Tail(inbox)
-                     /\ Obs("poll", TRUE)
+                THEN /\ inbox' = Tail(inbox) /\ Obs("poll", TRUE)
+                     /\ IF Head(inbox) = "R" THEN st' = AfterDispatch.st /\ fired' = AfterDispatch.fired
+                                             ELSE UNCHANGED <<st, fired>>
                 ELSE /\ Obs("poll", FALSE) /\ UNCHANGED <<st, fired, inbox>>
-             /\ UNCHANGED <<now, E, replySent, otherSent, cbs, prog, busyUntil, waitFrom>>
+             /\ UNCHANGED <<now, E, replySent, otherSent, quickSent, cbs, prog, busyUntil, waitFrom>>
 
-StartWait == /\ CanOp /\ Count
+StartWait == /\ CanOp /\ Count /\ "wait" \in OpsAllowed
              /\ prog' = "waiting" /\ waitFrom' = now
-             /\ UNCHANGED <<now, E, st, inbox, replySent, otherSent, cbs, fired, busyUntil, obs>>
+             /\ UNCHANGED <<now, E, st, inbox, replySent, otherSent, quickSent, cbs, fired, busyUntil, obs>>
 
 \* ---------------------------------------------------------------- inside wait(): while not ready and not expired: serve(ttl)
 WaitReturn == /\ prog = "waiting" /\ st # "pending"
               /\ prog' = "idle" /\ Obs("wait", "ok")
-              /\ UNCHANGED <<now, E, st, inbox, replySent, otherSent, cbs, fired, busyUntil, nops, waitFrom>>
+              /\ UNCHANGED <<now, E, st, inbox, replySent, otherSent, quickSent, cbs, fired, busyUntil, nops, waitFrom>>
 
 WaitTimeout == /\ prog = "waiting" /\ st = "pending" /\ Expired
                /\ prog' = "idle" /\ Obs("wait", "timeout")
-               /\ UNCHANGED <<now, E, st, inbox, replySent, otherSent, cbs, fired, busyUntil, nops, waitFrom>>
+               /\ UNCHANGED <<now, E, st, inbox, replySent, otherSent, quickSent, cbs, fired, busyUntil, nops, waitFrom>>
 
 WaitServe == /\ prog = "waiting" /\ st = "pending" /\ ~Expired /\ inbox # <<>>
              /\ inbox' = Tail(inbox)
              /\ IF Head(inbox) = "R"
                 THEN /\ st' = AfterDispatch.st /\ fired' = AfterDispatch.fired /\ UNCHANGED <<prog, busyUntil>>
+                ELSE IF Head(inbox) = "Y"
+                THEN UNCHANGED <<st, fired, prog, busyUntil>>       \* served at once; the waiter goes on waiting until E
                 ELSE /\ prog' = "busy" /\ busyUntil' = now + Busy /\ UNCHANGED <<st, fired>>
-             /\ UNCHANGED <<now, E, replySent, otherSent, cbs, obs, nops, waitFrom>>
+             /\ UNCHANGED <<now, E, replySent, otherSent, quickSent, cbs, obs, nops, waitFrom>>
 
 BusyDone == /\ prog = "busy" /\ busyUntil <= now
             /\ prog' = "waiting"
-            /\ UNCHANGED <<now, E, st, inbox, replySent, otherSent, cbs, fired, busyUntil, obs, nops, waitFrom>>
+            /\ UNCHANGED <<now, E, st, inbox, replySent, otherSent, quickSent, cbs, fired, busyUntil, obs, nops, waitFrom>>
 
 Done == now = T /\ UNCHANGED vars
-Next == \/ Tick \/ ReplyArrives \/ OtherArrives
+Next == \/ Tick \/ ReplyArrives \/ OtherArrives \/ QuickArrives
         \/ \E t \in Timeouts : SetExpiry(t)
         \/ AddCallback \/ QExpired \/ QReady \/ PollOther \/ StartWait
         \/ WaitReturn \/ WaitTimeout \/ WaitServe \/ BusyDone \/ Done
